@@ -701,6 +701,8 @@ func Handle(in []byte) any {
 		runTwoBlocked(&sc, out)
 	case "finalise":
 		runFinalise(&sc, out)
+	case "refused":
+		runRefused(&sc, out)
 	case "reader":
 		runReader(&sc, out)
 	default:
